@@ -18,6 +18,9 @@ type PropMeta struct {
 var realS = []string{"zenodb.DB embedded API", "getlantern/wal on tmpfs (real files, fsync on write)", "row store (memstore + filestore, flush protocol)", "bytetree", "encoding", "expr", "sql parser", "planner", "core operators"}
 var stubS = []string{"clock/timers: testing/synctest fake clock", "process crash: directory image taken at the crash instant", "process memory reading (hook H5) where used"}
 
+var realCL = []string{"zenodb.DB passthrough leaders (WAL, processFollowers map/reduce pipeline, partition routing, queryCluster)", "zenodb.DB followers (followLeaders start timers, per-table dedup by offset, row stores, queryForRemote)", "planner cluster paths (pushdown / non-pushdown)", "optional: rpc msgpack codec on every message crossing a link", "standalone differential node D (all of world S)"}
+var stubCL = []string{"transport between nodes: simulator links over DBOpts.Follow / DB.Follow / RegisterQueryHandler (delay, stall, cut, heal)", "reconnect policy of server.followSource (1 s doubling to 1 min, resume from last delivered offset) re-implemented in the harness", "clock/timers: testing/synctest fake clock", "process crash: directory image"}
+
 var commonAssumptions = []string{
 	"goroutine choice between hook sites is left to the Go scheduler; the event-layer discipline (quiesce after every op) makes the observable history a function of the plan, which the selftest checks by diffing event logs across processes and GOMAXPROCS values",
 	"MinFlushLatency >= 1ms and ops separated by >= 1us of simulated time (zenodb derives file names and scan ids from the clock)",
@@ -99,5 +102,12 @@ var propMeta = map[string]*PropMeta{
 		Real:  realS, Stub: stubS,
 		Assumptions: append([]string{"the simulator contributes storage splits and the common clock; the deciding power is the program generator plus the differential (DESIGN 4/C08)", "predicates only use dimensions that every point carries and every table keeps in its key (comparisons with NULL are not defined by the statement)"}, commonAssumptions...),
 		Probes: []string{"op.where", "op.having", "op.insub", "op.fromsub", "probe.point-matches-pred"},
+	},
+	"C10": {
+		Level: "exploration", QuickSecs: 60, ThoroughSecs: 900, Recycle: 60,
+		Rule: "one case = one seeded plan in world CL: 1-2 passthrough leaders, P=1..5 partitions x 1-2 followers (all real zenodb.DB in one bubble, link-level transport, msgpack codec on in half of the plans) plus a standalone differential node D fed the same points in the same order; generated schema with partitionBy in {none, subsets of dims} per table; 3-50 points sent to a generated leader each, starting before / while / after the followers' 30 s + 5 s start timers; follower flushes, link delays; no cuts or crashes (C12/C13). Oracle: after catch-up (a) per table and (key, period) the partitions together hold exactly D's _points and redundant followers of a partition are identical, (b) a generated query battery (field subsets, derived fields, WHERE, windows, grouping, HAVING, ORDER BY, CROSSTAB, FROM-subqueries) returns on every leader the same multiset as on D with all partitions successful. Non-trivial = a compared query returned rows.",
+		Real:  realCL, Stub: stubCL,
+		Assumptions: append([]string{"in-stream message loss/duplication/reordering is not injected (both real links are ordered streams)", "leader and D plan each query at the same simulated instant; link delays are small compared with the resolution"}, commonAssumptions...),
+		Probes: []string{"probe.routing-checked", "link.delivered", "codec.point", "codec.row"},
 	},
 }
